@@ -488,3 +488,40 @@ theorem parseTcpSigFull_print (s : TcpSig) (h : WFTcp s) : parseTcpSigFull (prin
 
 
 end Huginn.SigText
+
+namespace Huginn.SigText
+open Huginn.Sig Huginn.SigText.Spec
+
+theorem joinComma_eq_joinWith_map {α} (f : α → Str) (xs : List α) :
+    joinComma f xs = joinWith ',' (xs.map f) := by
+  induction xs with
+  | nil => rfl
+  | cons a t ih =>
+    cases t with
+    | nil => rfl
+    | cons b t' => simp only [joinComma, joinWith, List.map_cons] at ih ⊢; rw [ih]
+
+
+theorem mem_takeWhile {p : Char → Bool} {l : Str} {x : Char} (h : x ∈ l.takeWhile p) : p x = true := by
+  induction l with
+  | nil => simp at h
+  | cons c l ih =>
+    by_cases hc : p c = true
+    · simp [hc] at h
+      rcases h with rfl | h
+      · exact hc
+      · exact ih h
+    · simp [hc] at h
+
+theorem dropWhile_head_false {p : Char → Bool} {l r : Str} {x : Char} (h : l.dropWhile p = x :: r) :
+    p x = false := by
+  induction l with
+  | nil => simp at h
+  | cons c l ih =>
+    by_cases hc : p c = true
+    · simp [hc] at h; exact ih h
+    · simp [hc] at h
+      obtain ⟨rfl, _⟩ := h
+      simpa using hc
+
+end Huginn.SigText
